@@ -8,7 +8,7 @@
    (read-back step, monitor Spec/WorldSpec.c07_e2e_step). *)
 From VF Require Import Base.Prelude Model.Cache Model.Session Model.Codec Model.Middleware Model.World
      Corr.WorldCorr Spec.WorldSpec.
-From VF Require Import Proofs.WorldBase Proofs.SessionProofs Proofs.W_Cookies Proofs.W_C07 Proofs.W_C07E Proofs.W_Example.
+From VF Require Import Proofs.WorldBase Proofs.SessionProofs Proofs.W_Cookies Proofs.W_C07 Proofs.W_C07E Proofs.W_Example Proofs.W_C17.
 
 (* ---- byte level: splitIntoChunks (justifies the symbolic `whole t` of the model) *)
 
@@ -167,3 +167,11 @@ Example C07_read_back_nonvacuous :
   /\ c07_e2e_step exE excfg ex_now rq
        (mkResp 200 None [] BNone (Some [(1, HStr 11); (2, HStr 11); (3, HStr 0)]%N) false [] []) = false.
 Proof. vm_compute. repeat split. Qed.
+
+(* The model raises no anomaly flag; flag 6 is what the harness sets on an observed step when the code's
+   session getters disagree with an independent reader of the same cookies (read-back at the session level). *)
+Theorem C07_no_read_back_flag : forall (E : env) (cfg : config) (st : inst) (now : time) (rq : request)
+    (rnd : istr * istr * istr) (ans : option answer),
+  no_flag 6 (snd (serve E cfg st now rq rnd ans)) = true.
+Proof. exact (fun E cfg st now rq rnd ans => f_equal (fun l => negb (memk 6 l)) (flags_serve E cfg st now rq rnd ans)). Qed.
+Print Assumptions C07_no_read_back_flag.
